@@ -257,7 +257,13 @@ impl TransactionManager {
             if *other_tx == tx_id {
                 continue;
             }
-            if other_info.state == TxState::Committed {
+            // Only a writer that committed after we began overlaps with us; one that
+            // committed before our snapshot was taken is part of what we read (and must not
+            // make us fail just because gc() has not removed its entry yet).
+            let overlaps = committed
+                .get(other_tx)
+                .is_none_or(|epoch| epoch.as_u64() > our_start_epoch.as_u64());
+            if other_info.state == TxState::Committed && overlaps {
                 // Check if any of our writes conflict with their writes
                 for entity in &our_write_set {
                     if other_info.write_set.contains(entity) {
